@@ -228,8 +228,9 @@ def run_layout_case(ctx, conv, R, rng, size, fields, used, values=None, tag="lay
                 ctx.inconclusive_because("reference codec disagrees with itself")
         else:
             want = bytes(ref[f[1] : f[1] + f[2] * f[3]])
-            if bytes(out1.get(name, b"?")) != want:
-                ctx.fail("C10:decode.blob_%s" % f[0], "decode_bits blob %s wrong" % name, wit)
+            got = out1.get(name, b"?")
+            if not isinstance(got, (bytes, bytearray, memoryview)) or bytes(got) != want:
+                ctx.fail("C10:decode.blob_%s" % f[0], "decode_bits blob %s is %r, the buffer holds %r" % (name, got if not isinstance(got, (bytes, bytearray)) else bytes(got)[:16], want[:16]), wit)
     def plain(d):
         return {k: (bytes(v) if isinstance(v, (bytes, bytearray)) else v) for k, v in d.items()}
 
